@@ -471,6 +471,10 @@ class CorrData(AsciiSerializable, SampledData, Broadcastable):
 
             path_prefix = Path(path_prefix)
 
+            # do not leave a mixture of old and new files if writing is interrupted
+            for suffix in (".dat", ".smp", ".cov"):
+                path_prefix.with_suffix(suffix).unlink(missing_ok=True)
+
             write_data(
                 path_prefix.with_suffix(".dat"),
                 self._description_data,
